@@ -561,11 +561,25 @@ def _derive(facts, k, v):
 # helpers on ast
 # ----------------------------------------------------------------------------
 
+_METHOD_ALIASES: dict = {}      # local name -> container name, for `append = xs.append` in the function being analysed
+
+
+def method_aliases(fn_node) -> dict:
+    out = {}
+    for n in ast.walk(fn_node):
+        if isinstance(n, ast.Assign) and len(n.targets) == 1 and isinstance(n.targets[0], ast.Name) and \
+                isinstance(n.value, ast.Attribute) and isinstance(n.value.value, ast.Name) and n.value.attr in MUTATORS:
+            out[n.targets[0].id] = n.value.value.id
+    return out
+
+
 def assigned_names(nodes) -> set:
     """Names (re)bound or mutated in place anywhere inside the statements."""
     out = set()
     for st in nodes:
         for n in ast.walk(st):
+            if isinstance(n, ast.Call) and isinstance(n.func, ast.Name) and n.func.id in _METHOD_ALIASES:
+                out.add(_METHOD_ALIASES[n.func.id])
             if isinstance(n, ast.Name) and isinstance(n.ctx, (ast.Store, ast.Del)):
                 out.add(n.id)
             elif isinstance(n, ast.Call) and isinstance(n.func, ast.Attribute) and n.func.attr in MUTATORS \
@@ -639,7 +653,13 @@ class Analyzer:
         for n in ast.walk(self.fi.node):
             if isinstance(n, ast.Global):
                 self._global_names.update(n.names)
-        falls = self.exec_block(self.fi.node.body, [s], {"break": [], "continue": []})
+        global _METHOD_ALIASES
+        saved_aliases = _METHOD_ALIASES
+        _METHOD_ALIASES = method_aliases(self.fi.node)
+        try:
+            falls = self.exec_block(self.fi.node.body, [s], {"break": [], "continue": []})
+        finally:
+            _METHOD_ALIASES = saved_aliases
         self.res.falls = falls
         self.res.paths = len(falls) + len(self.res.returns) + len(self.res.raises)
         return self.res
@@ -1305,6 +1325,32 @@ class Analyzer:
                     break
         return out
 
+    def _bound_mutator(self, e, f, s):
+        """(env key, current value) of the one local container that the bound method held in a local name belongs to."""
+        if not isinstance(e.func, ast.Name) or f[0] != "attr" or f[2] not in MUTATORS or _immutable_recv(f[1]):
+            return None
+
+        def root(t):
+            while t[0] == "mut":
+                t = t[1]
+            return t
+        r0 = root(f[1])
+        if r0[0] in ("param", "global", "ext", "attr"):
+            return None
+        me = self._k(e.func.id)
+        cands = [(n, v) for n, v in s.env.items() if n != me and isinstance(v, tuple) and v and v[0] != "attr" and root(v) == r0]
+        return cands[0] if len(cands) == 1 else None
+
+    def _outer_name_key(self, key):
+        """on_name for an environment key (already qualified when inside a helper)."""
+        if ":" in key:
+            q, n = key.rsplit(":", 1)
+            for fr in reversed(self._frames):
+                if fr["qual"] == q and n in fr["names"]:
+                    return self._outer_name(n)
+            return key
+        return key
+
     def _through_partial(self, f, args_t, kwargs):
         """P(x, k=v) for a module-level `P = functools.partial(F, a, k0=v0)` is F(a, x, k0=v0, k=v)."""
         if f[0] != "global" or f[1] not in self.model.modules:
@@ -1512,6 +1558,17 @@ class Analyzer:
                         self.event("call", e, s3, func=f, args=args_t, kwargs=kwargs, value=("call", f, args_t, kwargs), mut=recv)
                         out.append((s4, NONE))
                         continue
+                    alias = self._bound_mutator(e, f, s3)
+                    if alias is not None:
+                        # `append = xs.append; append(v)`: a bound method called through a local name changes `xs`
+                        var, cur = alias
+                        mut = ("mut", cur, f[2], args_t)
+                        s4 = s3.copy()
+                        s4.env[var] = mut
+                        self.event("mutate", e, s3, recv=cur, method=f[2], args=args_t, new=mut, on_name=self._outer_name_key(var))
+                        self.event("call", e, s3, func=("attr", cur, f[2]), args=args_t, kwargs=kwargs, value=("call", ("attr", cur, f[2]), args_t, kwargs), mut=mut)
+                        out.append((s4, ("call", ("attr", cur, f[2]), args_t, kwargs)))
+                        continue
                     if isinstance(e.func, ast.Attribute) and e.func.attr in MUTATORS:
                         recv = f[1] if f[0] == "attr" else None
                         if recv is not None and not _immutable_recv(recv):
@@ -1633,9 +1690,13 @@ class Analyzer:
         saved_fi, saved_globals = self.fi, self._global_names
         self.fi = callee
         self._frames.append(frame)
+        global _METHOD_ALIASES
+        saved_aliases = _METHOD_ALIASES
+        _METHOD_ALIASES = method_aliases(callee.node)
         try:
             falls = self.exec_block(callee.node.body, [init], {"break": [], "continue": []})
         finally:
+            _METHOD_ALIASES = saved_aliases
             self._frames.pop()
             self.fi, self._global_names = saved_fi, saved_globals
         outs = frame["returns"] + [(st, NONE) for st in falls]
